@@ -135,9 +135,14 @@ func watchdog() {
 		res := &h.Result{Name: spec.Name, Class: spec.Class, Seed: spec.Seed, Obs: map[string]int{}, FP: map[string]string{}}
 		verdict, frames := classifyStall(d1, d2)
 		if verdict == "deadlock" {
-			prop := stallProp(spec)
-			res.Viol = append(res.Viol, h.Violation{Prop: prop, Clause: "deadlock", Sig: "deadlock:" + frames,
-				Detail: "no goroutine runnable in two dumps 2 s apart; library goroutines blocked on a mutex: " + frames})
+			props := []string{stallProp(spec)}
+			if props[0] == "C11" && strings.Contains(strings.ToLower(frames), "stop") {
+				props = append(props, "C09") // a stop call is among the blocked: both properties rule it out
+			}
+			for _, prop := range props {
+				res.Viol = append(res.Viol, h.Violation{Prop: prop, Clause: "deadlock", Sig: "deadlock:" + frames,
+					Detail: "no goroutine runnable in two dumps 2 s apart; library goroutines blocked on a mutex: " + frames})
+			}
 			res.Fatal = "deadlock"
 		} else {
 			res.Inconclusive = "stall without provable deadlock: " + frames
